@@ -39,32 +39,34 @@ CHECKS = {
  "C08": _c("Props/C08.v (+C08_basic, C08_triangle): symmetry (42), asymmetry witnesses (5), non-negativity and zero self-distance (45 each) and the triangle inequality (13) of the closed forms "
            "over R on the domains of the fixed axiom table, for every vector length; tied to the code through C06's closed-form theorems.",
            "5/C08", "Coq proofs over Reals (Cauchy-Schwarz, Minkowski, log-sum, case factorisations) about closed forms linked to regenerated code terms",
-           "Trusted: as C06. Float-level finiteness is exercised by the oracle only (robust-sign analysis not yet built): partial on 'finite'."),
- "C12": _c("Props/C12_pdf.v (+C12 arcs theorems when merged): density estimation over R: constant, pdf formula, min/max, affine order-preserving map onto [1, MAX_DENSITY], cost = density - 1, "
+           "Trusted: as C06. Float-level: Props/C08_robust.v proves, for every monotone sign-preserving rounding, that 44 of the 47 regenerated bodies never meet sqrt of a negative, log of a non-positive or a zero divisor (hassanat and mean_censored_euclidean on non-negative vectors by dedicated lemmas; jaccard not provable in that rounding model); overflow/underflow outside the model."),
+ "C12": _c("Props/C12_pdf.v and Props/C12_arcs.v (k+1-slot scan = stable-sort prefix; arcs exact incl. ties, k > n-1, non-fresh subgraphs; per-rank maxima; density bound with fallback): density estimation over R: constant, pdf formula, min/max, affine order-preserving map onto [1, MAX_DENSITY], cost = density - 1, "
            "eliminate_maxima; the same Gallina terms run bit-exactly in PrimFloat against calculate_pdf; arc creation tied by exact correspondence.",
            "5/C12", "Coq proof over one NumOps-generic definition (R theorems, PrimFloat bit-exact run); model/impl correspondence",
            _T + "exp values supplied by numpy as a table (no float exp in Coq)."),
- "C13": _c("Clustering models (both flavours, incl. the in-loop plateau insertion of the unsupervised routine) tied by exact correspondence on adjacency/cost/pred/root/labels/ids/order; "
-           "forest theorems in Props/C13.v when merged.", "5/C13", "Coq model + correspondence; forest invariant proof over the max-heap specification", _T),
+ "C13": _c("Props/C13.v: for both clustering flavours (incl. the in-loop plateau insertion of the unsupervised routine) the predecessor map is a forest, every sample reaches exactly one root = its recorded root, "
+           "cost/label/cluster-id equations, density gap, cluster ids 0..n_clusters-1 in removal order, label propagation. Tied by exact correspondence on the clustering step and by a PrimFloat "
+           "end-to-end model of the final training stage compared bit-for-bit with fitted KNN-supervised/unsupervised objects.", "5/C13", "Coq model + correspondence; forest invariant proof over the max-heap specification", _T),
  "C14": _c("Props/C14_density.v: query density formula over R with the stored constants; KNN predict model (scan + density + arg-max) run in PrimFloat against both predicts, one case per "
            "(model, query, batch position).", "5/C14", "Coq proof (R) + PrimFloat correspondence; exhaustive k-nearest oracle", _T),
  "C15": _c("Props/C15.v: C01's theorems for the semi-supervised competition over labeled+unlabeled nodes, labeled nodes keep their labels, unlabeled get the root prototype's label, and "
            "semi_fit with an empty unlabeled set EQUALS sup_fit (record equality).", "5/C15", "Coq proof (shared with C01) + simulation; model/impl correspondence", _T),
  "C16": _c("k-selection folds (knn_select, cut_select) tied by correspondence to _learn/_best_minimum_cut with criterion values captured by wrapping opf_accuracy/_normalized_cut; "
-           "argmax/argmin theorems in Props/C16.v when merged.", "5/C16", "Coq fold theorems + correspondence with wrapped criteria", _T),
- "C17": _c("Relevance marking tied by correspondence; learn conservation / best-model and prune sub-multiset decided on the real arrays; Learn model theorems in Props/C17.v when merged.",
+           "Props/C16.v: smallest index attaining the maximum accuracy (all-zero => 1) / the minimum cut among the evaluated prefix (stop after an exact 0). The harness also checks that the final arcs and clustering use best_k.", "5/C16", "Coq fold theorems + correspondence with wrapped criteria", _T),
+ "C17": _c("Props/C17.v: learn conserves the (row,label) multiset and sizes for any draws and keeps the first best iteration; relevance flags = root paths of conquerors (= C03 winners); prune yields a sublist. "
+           "Tied by correspondence with recorded random draws, per-iteration accuracies/errors and the kept snapshot; multiset oracles on the real arrays.",
            "5/C17", "Coq model + correspondence with recorded draws; multiset oracles", _T),
 
  "C04": _c("Props/C04_knn.v: KNN-supervised final clustering (forced prototypes) assigns every training sample its own label for any data and ties (cross-label offers are never accepted); "
-           "Props/C04.v (when merged): tie-free supervised training gives every sample its own label and predicting a training row returns its label, derived from C01+C02+C03. "
+           "Props/C04.v: tie-free supervised training gives every sample its own label and predicting a training row returns its label, derived from C01+C02+C03. "
            "Checked on the implementation for every eligible metric of the axiom table.", "5/C04", "Coq proof combining the Prim, Dijkstra and scan theorems; model/impl correspondence", _T),
- "C09": _c("Props/C09_sup.v: predict_batch = map predict_one and only the relevance flags of the model change; Props/C09_knn.v (when merged): the KNN batch with its threaded scratch array "
+ "C09": _c("Props/C09_sup.v: predict_batch = map predict_one and only the relevance flags of the model change; Props/C09_knn.v: the KNN batch with its threaded scratch array "
            "equals the pointwise map. All four predicts tied by correspondence on batches with duplicates/permutations.", "5/C09", "Coq proof (induction over the batch); model/impl correspondence on batches", _T),
- "C10": _c("Every algorithm of the model takes its weights as a function argument; Props/C10_logic.v (when merged): pointwise-equal weight functions give equal outputs and the indexed matrix read equals "
+ "C10": _c("Every algorithm of the model takes its weights as a function argument; Props/C10_logic.v: pointwise-equal weight functions give equal outputs and the indexed matrix read equals "
            "the direct metric call when the index arrays identify the rows. End-to-end: models through a distance file written by pre_compute_distance (.txt/.csv, index arrays) compared "
            "bit-for-bit with the direct models; get_distances checked.", "5/C10", "Coq proof (weight extensionality / parametricity) + end-to-end file correspondence",
            _T + "Partial: np.savetxt/np.loadtxt round trip of float64 is validated on every matrix entry, not proved."),
- "C11": _c("Props/C11_rescale.v (when merged): a strictly increasing map of the weights leaves prototypes, predecessors, labels, order and predictions unchanged and maps costs; Props/C11_perm.v (when merged): "
+ "C11": _c("Props/C11_rescale.v: a strictly increasing map of the weights leaves prototypes, predecessors, labels, order and predictions unchanged and maps costs; Props/C11_perm.v: "
            "permutation invariance on tie-free data from MST uniqueness + minimax costs + zero resubstitution error; Props/C11_family.v: the five Euclidean-family closed forms are strictly increasing "
            "transforms of the squared Euclidean one. Checked on (instance, permuted instance) pairs and on the five identifiers.", "5/C11",
            "Coq proof (parametricity free theorem / uniqueness arguments) + paired-run correspondence", _T),
@@ -73,4 +75,14 @@ CHECKS = {
            "Correspondence: state abstraction and predictions of original / original-after-save / loaded compared field by field.", "5/C19",
            "Coq proof over a dict-update model conditional on the pickle round trip; regenerated shape facts; save/load correspondence",
            "Trusted: pickle round trip (exercised every run, hypothesis of the theorems); translator/attrs.py."),
+
+ "C18": _c("Props/C18.v: split is a partition with own label and row index (sizes h / n-h, index outputs = firstn/skipn of the permutation), merge(split) is a permutation of the input, "
+           "parse accepts iff labels are sequential (labels >= 0) and returns the right columns, decode(encode) of the LibOPF word layout, the three converters hand identical rows to their writers, "
+           "convert->parse round trip. End-to-end correspondence over converter, loader, parser, Subgraph(from_file) (float32 by bit pattern) and splitter (permutation re-seeded, halt in binary64).",
+           "5/C18", "Coq proof (permutation/partition, pigeonhole, layout round trip) + end-to-end correspondence",
+           _T + "Partial: np.random.permutation being a seed-determined permutation, struct decoding, float32 text/JSON round trip, savetxt/loadtxt are exercised exactly but outside the theorems. Domain: >= 2 samples."),
+ "C20": _c("Props/C20.v over Model/Measures.v (transcription of math/general.py over exact rationals): confusion counts and total, accuracy formula / bounds / =1 iff all correct, per-label = recall, "
+           "purity bounds / =1 iff groups pure; normalize over R with mean 0 and sum of squares n. Correspondence: exhaustive small vectors + random streams, counts exact, rationals within 1e-12, "
+           "normalize under PrimFloat.", "5/C20", "Coq proof over Q / R + exhaustive-small and random correspondence",
+           _T + "0/0 -> nansum modelled as x/0 = 0 with x/0, x > 0 proved impossible on the domain; float rounding outside the theorems."),
 }
